@@ -184,6 +184,27 @@ def op_table():
         if not np.allclose(got, want, atol=1e-6):
             raise AssertionError("written values differ")
     add("writefile", lambda m: m.nrows >= 1, f_write)
+
+    def f_filter_all(cf, m, w):
+        cf.filter(np.zeros(m.nrows, bool)); m.select([])
+    add("filter_everything_out", lambda m: m.nrows >= 1, f_filter_all)
+
+    # operations the library must refuse (wrong length): whether it raises or not, the object must still be the rectangular table
+    # the model describes - the model is left unchanged and the invariant decides
+    def rejected(name, pre, call):
+        def fn(cf, m, w):
+            try:
+                call(cf, m)
+            except Exception:
+                pass
+        add(name, pre, fn)
+    rejected("refused_addcolumn_over_wrong_length", has("a"), lambda cf, m: cf.addcolumn(fresh(m.nrows + 1, 1), "a"))
+    rejected("refused_addcolumn_new_wrong_length", hasnot("c"), lambda cf, m: cf.addcolumn(fresh(m.nrows + 1, 0), "c"))
+    rejected("refused_setcolumn_wrong_length", has("b"), lambda cf, m: cf.setcolumn(fresh(m.nrows + 1, 2), "b"))
+    rejected("refused_setitem_wrong_length", has("a"), lambda cf, m: cf.__setitem__("a", fresh(m.nrows + 2, 3)))
+    rejected("refused_setattr_wrong_length", has("b"), lambda cf, m: setattr(cf, "b", fresh(m.nrows + 1, 5)))
+    rejected("refused_filter_wrong_mask", lambda m: True, lambda cf, m: cf.filter(np.ones(m.nrows + 1, bool)))
+    rejected("refused_bigarray_wrong_columns", lambda m: True, lambda cf, m: setattr(cf, "bigarray", np.zeros((len(m.cols) + 1, m.nrows))))
     return ops
 
 
